@@ -20,7 +20,7 @@ def coq_op(o):
     k, a = o[0], o[1:]
     z = F.zlit
     return {"N": lambda: f"ZN {z(a[0])} {z(a[1])}", "E": lambda: f"ZE {z(a[0])} {z(a[1])}", "R": lambda: f"ZR {z(a[0])}",
-            "P": lambda: f"ZP {z(a[0])}", "B": lambda: "ZB", "Q": lambda: "ZQ"}[k]()
+            "P": lambda: f"ZP {z(a[0])}", "B": lambda: "ZB", "Q": lambda: "ZQ", "A": lambda: f"ZA {z(a[0])}"}[k]()
 
 
 def build(item, ops=None):
@@ -201,6 +201,21 @@ def gen_exhaustive(rng, tier):
                         base = [["N", 0, 0 if j == z else 1 + (j + ne) % 2] for j in range(nn)] + edges
                         for kind in ("G", "S"):
                             items.append(build(dict(kind=kind, fam="exh0", ops=base + allp + [["Q"]])))
+    # a node that panics once inside Node::process (the host catches the unwinding and keeps using the
+    # same processor): every graph (<= 2 edges quick, <= 3 thorough) x every armed node x every output
+    # node of the aborted call, then a call for every output node on the same processor
+    for nn in (1, 2, 3):
+        pairs = [(a, b) for a in range(nn) for b in range(nn)]
+        for ne in range(0, 3 if tier == "quick" else 4):
+            for seq in itertools.product(pairs, repeat=ne):
+                base = [["N", 0, 1 + (j + ne) % 2] for j in range(nn)] + [["E", a, b] for a, b in seq]
+                for arm in range(nn):
+                    for o1 in range(nn):
+                        ops = base + [["A", arm], ["P", o1], ["B"]]
+                        for o in range(nn):
+                            ops += [["P", o], ["B"]]
+                        for kind in ("G", "S"):
+                            items.append(build(dict(kind=kind, fam="exhpanic", ops=ops)))
     # StableGraph with a vacancy: nn live nodes + one removed slot at each position, <= 3 edges
     for nn in (1, 2, 3):
         for vac in range(nn + 1):
@@ -278,7 +293,11 @@ def gen_random(rng, tier):
         lv = sh.live_nodes()
         sinks = [v for v in lv if not any(a == v for a, b in sh.edges)] or lv
         outs = []
-        for c in range(3):
+        arming = r.chance(1, 3)
+        for c in range(3 + (1 if arming else 0)):
+            if arming and c < 2 and lv:
+                for _ in range(r.range(1, 2) if c == 0 else r.below(2)):
+                    ops.append(["A", r.choice(lv) if not r.chance(1, 15) else r.below(nn + 2)])
             o = r.choice(sinks) if r.chance(1, 2) else r.choice(lv)
             outs.append(o)
             ops += [["P", o], ["B"]]
@@ -345,6 +364,21 @@ def main(rep, tier, seed):
         if allf & NONTRIVIAL:
             nontriv.add(it["line"])
     invocations = sum(o.count(";11 ") for o in outl)
+    aborted_calls, calls_after_abort = 0, 0
+    for it, o in zip(items, outl):
+        parts = o.split(";")
+        seen17 = False
+        for q in parts:
+            if q.startswith("17 "):
+                aborted_calls += 1
+                seen17 = True
+            elif q.startswith("10 ") and seen17:
+                calls_after_abort += 1
+        if seen17 and not errors:
+            # reuse of the processor after a call aborted by a node panic
+            idx17 = min(i for i, q in enumerate(parts) if q.startswith("17 "))
+            if any(q.startswith("10 ") for q in parts[idx17:]):
+                nontriv.add(it["line"])
     panics = sum(1 for o in outl if o.endswith(";8 3") or o.endswith(";8 4") or o in ("8 3", "8 4"))
     for idx in bad[:3]:
         it = items[idx]
@@ -362,7 +396,8 @@ def main(rep, tier, seed):
             "harness_line": small["line"], "implementation_observations": out, "model_observations": model[-3000:],
             "original_case_index": idx, "replay": "./check.py C09 --replay <this file>"})
     dist = {"families": fam_hist, "sizes": size_hist, "process_call_features": feat_hist, "process_calls": calls,
-            "node_invocations_observed": invocations, "panicking_calls_observed": panics,
+            "node_invocations_observed": invocations, "calls_aborted_by_node_panic": aborted_calls,
+            "process_calls_after_an_aborted_call_same_processor": calls_after_abort, "panicking_calls_observed": panics,
             "exhaustive_cases": len(exh), "random_cases": len(rnd), "corpus_cases": len(corpus)}
     samples = [items[i]["line"] for i in (len(corpus), len(corpus) + len(exh) // 2, len(items) - 1)] if items else []
     return finish(rep, info, len(items), len(nontriv) if not errors else 0, dist, samples, bad)
@@ -377,7 +412,7 @@ def finish(rep, info, n, nontriv, dist, samples, bad=()):
                                            "modelled, not verified: petgraph 0.5.1 Graph/StableGraph containers (adjacency lists as an edge list read newest-first, vacancies, free list, node_bound), FixedBitSet as a set plus a length, the DfsPostOrder loop transcribed from visit/traversal.rs:199-220; raw-pointer Inputs as the neighbour's buffers at call time"],
         "theorems": th, "axioms_reported": info.get("axioms", []),
         "evaluations": n, "distinct_nontrivial": nontriv,
-        "rule": "exhaustive: every edge sequence over <= 3 nodes with <= 4 edges (self-loops, doubled edges) x every output node, Graph and StableGraph, plus StableGraph with one vacant slot at every position, plus (<= 2 edges quick, <= 3 thorough) a node WITHOUT output buffers at every position (also as the output node); nodes have 0, 1 or 2 output buffers (1 in 6 none, 1 in 6 two) in every family; random: graphs to 40 nodes / 120 edges, DAG and cyclic, 0-5 removed nodes (slots re-used by later add_node), three consecutive process calls on one Processor, occasional invalid output node; non-trivial = some process call whose upstream subgraph has a cycle, a parallel edge, a self-loop or a node with two paths to the output, or whose graph has a vacancy, or whose upstream subgraph contains a node without buffers",
+        "rule": "exhaustive: every edge sequence over <= 3 nodes with <= 4 edges (self-loops, doubled edges) x every output node, Graph and StableGraph, plus StableGraph with one vacant slot at every position, plus (<= 2 edges quick, <= 3 thorough) a node WITHOUT output buffers at every position (also as the output node); nodes have 0, 1 or 2 output buffers (1 in 6 none, 1 in 6 two) in every family; random: graphs to 40 nodes / 120 edges, DAG and cyclic, 0-5 removed nodes (slots re-used by later add_node), three consecutive process calls on one Processor, occasional invalid output node, in 1 of 3 random cases one or two nodes armed to panic once inside Node::process (unwinding caught, same Processor used again); exhaustive (<= 2 edges quick, <= 3 thorough): every armed node x every output node of the aborted call x a further call for every output node; non-trivial = some process call whose upstream subgraph has a cycle, a parallel edge, a self-loop or a node with two paths to the output, or whose graph has a vacancy, or whose upstream subgraph contains a node without buffers, or a process call made on a processor whose previous call was aborted by a node panic",
         "samples": samples, "input_distribution": dist, "disagreements": len(bad),
         "explanation": "theorems: for all multigraphs and output nodes (see props/C09.v); tie: the model's executable definitions run by coqc on the same scripts as the real crate; invocation order (logged inside Node::process), number of buffers each input shows, input identities in order, values seen, final buffers, call counts, buffer counts, sources and sinks compared exactly",
     }
